@@ -37,8 +37,16 @@ def gen(rnd, nh_only=False):
         def even(v): return v + J @ v
         B0 = np.column_stack([even(rand((N,))), even(rand((N,)))] + [rand((N,)) for _ in range(N - 2)])
         Q, _ = np.linalg.qr(B0); R = Q; L = Q                      # the first two columns span the two mirror-even vectors
+    elif herm and cplx and rnd.random() < 0.3:
+        # the explicit eigenvectors are real arrays (unit vectors), the implicit block is complex: real right-hand sides meet complex Green's functions
+        structure = "real explicit vectors, complex rest"
+        QB, _ = np.linalg.qr(rand((N - dA, N - dA))); Q = np.eye(N, dtype=complex); Q[dA:, dA:] = QB; R = Q; L = Q
     elif herm:
         Q, _ = np.linalg.qr(rand((N, N))); R = Q; L = Q
+    elif rnd.random() < 0.2:
+        # a weakly non-Hermitian problem: left and right vectors differ by a few 1e-7 — far above rounding, below every "close enough" tolerance
+        structure = "nearly Hermitian (R, L)"
+        Q0, _ = np.linalg.qr(rand((N, N))); G = rand((N, N)); R = Q0 @ (np.eye(N) + 3e-7 * G); L = np.linalg.inv(R).conj().T
     elif rnd.random() < 0.3 and N >= 4:
         # a real non-symmetric H_0 with complex-conjugate pairs of levels; one member of a pair explicit, its partner implicit
         structure = "real H_0 with conjugate pairs"
@@ -71,7 +79,8 @@ def gen(rnd, nh_only=False):
     else:
         parts = [order]
     def pert(scale):
-        m = rand((N, N)); return scale * ((m + m.conj().T) / 2 if herm else m)
+        m = rand((N, N)) if structure != "real explicit vectors, complex rest" else rng.normal(size=(N, N))
+        return scale * ((m + m.conj().T) / 2 if herm else m)
     solver = "direct"
     if herm and rnd.random() < 0.3: solver = rnd.choice(["kpm", "kpm-aux"])
     fd = tuple(b for b in range(len(parts)) if rnd.random() < 0.3)
@@ -97,7 +106,8 @@ def main(seed, ncases, driver, out, mode="all"):
         if P["H2"] is not None: H[(2,)] = conv(P["H2"])
         before = {n: (m.tobytes() if dense_in else (m.data.tobytes(), m.indices.tobytes(), m.indptr.tobytes())) for n, m in H.items()}
         rest = list(range(P["dA"], N))
-        def basis(idx): return R[:, idx] if herm else (R[:, idx], L[:, idx])
+        def realify(v): return v.real.copy() if np.abs(v.imag).max() == 0 else v
+        def basis(idx): return realify(R[:, idx]) if herm else (R[:, idx], L[:, idx])
         vecsA = [basis(p) for p in P["parts"]]
         key = f"{P['structure']}: {'dense' if dense_in else 'sparse'} {P['solver']} hermitian={herm} complex={P['cplx']} explicit={len(P['parts'])} degeneracy={P['pattern']} fd={bool(P['fd'])}"
         dist[key] = dist.get(key, 0) + 1
